@@ -153,6 +153,9 @@ func c13Run(c *Ctx) {
 	}
 	style := gen.DrawXStyle(c.L("style"))
 	style.EqSpace = c.L("style:x").Chance(1, 4)
+	if z := c.L("style:z"); z.Chance(1, 5) {
+		style.RootEnd = 1 + z.Intn(16)
+	}
 	if y := c.L("style:y"); y.Chance(1, 4) {
 		style.AttrPad = []int{40, 130, 260, 600, 1300, 1530}[y.Intn(6)]
 	}
@@ -254,6 +257,12 @@ func c13Run(c *Ctx) {
 		return
 	}
 	if !judgeXMP(c, e.Name, rec, f, false, what) {
+		return
+	}
+	if container <= 1 && !res.ErrNil {
+		// the packet is well-formed and every value was reported: the parse has nothing to
+		// complain about either
+		c.Fail("mismatch", e.Name, "error-on-well-formed-packet", "every property of a well-formed packet is reported exactly, but ParseXmp returned "+res.Err+"; "+what)
 		return
 	}
 	c.NonTrivial = len(rec.Props) >= 3
